@@ -15,6 +15,7 @@ Quirks of the code that are mirrored: a vertex equal to the start node's
 coordinates is dropped; a pipe between two reservoirs raises AttributeError (`Reservoir` has no `elevation`);
 a merged pipe of the skeletonizer has no check valve and no vertices and runs from `neighbors[0]` to `neighbors[1]`.
 -/
+import WntrModel.Model.MorphShape
 namespace Wntr.Morph
 
 inductive NodeKind where
@@ -125,8 +126,8 @@ def geometry (s e : Node) (verts : List Pt) (segLens : List Rat) (f : Rat) (init
 
 def newJunction (name : String) (elev : Rat) (xy : Pt) : Node := { name := name, kind := .junction, elev := elev, xy := xy }
 
-/-- `_split_or_break_pipe` with `junction_coordinates` initialised to `init pipe-start` (see `geometry`) -/
-def splitCore (initStart : Bool) (newCv : Pipe → Bool) (newMinor : Pipe → Rat) (newStatus : Pipe → Nat) (net : Net) (pipeName newPipe : String) (newJ : List String)
+/-- `_split_or_break_pipe`; `initStart`: `junction_coordinates` initialised to the start node (619975e2); `sh`: see MorphShape -/
+def splitCore (initStart : Bool) (sh : SplitShape) (net : Net) (pipeName newPipe : String) (newJ : List String)
     (atEnd : Bool) (f : Rat) (segLens : List Rat) (isBreak : Bool) : Except Err Net :=
   match net.pipe? pipeName with
   | none => .error .notAPipe
@@ -146,24 +147,28 @@ def splitCore (initStart : Bool) (newCv : Pipe → Bool) (newMinor : Pipe → Ra
           let j0 := newJ.headD ""
           let j1 := if isBreak then newJ.getD 1 "" else j0
           let nodes := net.nodes ++ (newJ.map fun j => newJunction j elev xy)
+          let np := sh.newPipe
+          -- the arguments of `wn2.add_pipe(new_pipe_name, …)`, each taken from where the shape says
+          let fresh (a b : String) (len : LenSrc) (vs : VertSrc) : Pipe :=
+            { name := newPipe, a := a, b := b, length := len.eval pipe.length f, diam := np.diam.rat pipe.diam,
+              rough := np.rough.rat pipe.rough, minor := np.minor.rat pipe.minor, initStatus := np.status.nat pipe.status,
+              status := np.status.nat pipe.status, cv := np.cv.bool pipe.cv, verts := vs.eval fv lv }
           let (old, new) : Pipe × Pipe :=
             if atEnd then
-              ({ pipe with b := j0, length := pipe.length * f, verts := fv },
-               { pipe with name := newPipe, a := j1, b := e.name, length := pipe.length * (1 - f), minor := newMinor pipe,
-                             initStatus := newStatus pipe, status := newStatus pipe, cv := newCv pipe, verts := lv })
+              ({ pipe with b := j0, length := sh.endOldLen.eval pipe.length f, verts := sh.endOldVerts.eval fv lv },
+               fresh j1 e.name sh.endNewLen sh.endNewVerts)
             else
-              ({ pipe with a := j0, length := pipe.length * (1 - f), verts := lv },
-               { pipe with name := newPipe, a := s.name, b := j1, length := pipe.length * f, minor := newMinor pipe,
-                             initStatus := newStatus pipe, status := newStatus pipe, cv := newCv pipe, verts := fv })
+              ({ pipe with a := j0, length := sh.startOldLen.eval pipe.length f, verts := sh.startOldVerts.eval fv lv },
+               fresh s.name j1 sh.startNewLen sh.startNewVerts)
           .ok { net with nodes := nodes,
                          pipes := (net.pipes.map fun p => if p.name == pipeName then old else p) ++ [new] }
       | _, _ => .error .notAPipe
 
-/-- the repaired `_split_or_break_pipe`: the new pipe has no check valve, no minor loss and is open (LinkStatus.Open = 1) -/
-def splitOrBreak := splitCore true (fun _ => false) (fun _ => 0) (fun _ => 1)
+/-- the repaired `_split_or_break_pipe` (= /repo HEAD): everything shape-dependent is read from `codeSplitShape` -/
+def splitOrBreak := splitCore true codeSplitShape
 
-/-- `_split_or_break_pipe` at /repo HEAD before fixes/C19-split-neutral-new-pipe.patch: minor loss and CURRENT status copied -/
-def splitCopying := splitCore true (fun _ => false) (fun p => p.minor) (fun p => p.status)
+/-- `_split_or_break_pipe` before 8195887e (fixes/C19-split-neutral-new-pipe.patch): minor loss and CURRENT status copied -/
+def splitCopying := splitCore true { codeSplitShape with newPipe := { codeSplitShape.newPipe with minor := .orig, status := .orig } }
 
 /-! ### skeletonization -/
 
@@ -229,7 +234,7 @@ def absorbNode (nodes : List SNode) (j c : String) (dj : List Dem) : List SNode 
   (nodes.filter (fun n => n.name != j)).map fun n => if n.name == c then { n with demands := n.demands ++ dj } else n
 
 def removable (s : Skel) (l : SLink) (thr : Rat) : Bool :=
-  l.isPipe && decide (l.diam ≤ thr) && !s.pExcl.contains l.name
+  l.isPipe && codeSkelShape.thr.eval l.diam thr && !s.pExcl.contains l.name
 
 /-- one iteration of the `branch_trim` loop for junction `j`; the state is unchanged when a guard fails -/
 def branchTrim (s : Skel) (j : String) (thr : Rat) : Skel :=
@@ -249,11 +254,11 @@ def branchTrim (s : Skel) (j : String) (thr : Rat) : Skel :=
         | _, _ => s
       | _ => s
 
-def dominant (p0 p1 : SLink) : SLink := if p0.diam ≥ p1.diam then p0 else p1
+def dominant (p0 p1 : SLink) : SLink := if codeSkelShape.dom.eval p0.diam p1.diam then p0 else p1
 
 /-- "Find closest neighbor junction": the junction end of the shorter pipe (`neigh_junc1` on a tie) -/
 def closestOf (m0 m1 : SNode) (p0 p1 : SLink) (n0 n1 : String) : Option String :=
-  if m0.kind = .junction ∧ m1.kind = .junction then (if p0.length < p1.length then some n0 else some n1)
+  if m0.kind = .junction ∧ m1.kind = .junction then (if codeSkelShape.closest.eval p0.length p1.length then some n0 else some n1)
   else if m0.kind = .junction then some n0
   else if m1.kind = .junction then some n1
   else none
